@@ -64,6 +64,8 @@ class Routes(ReverseProxyBasePlugin):
             (r'/get$', [b'http://up1.example/get']),
             (r'/api/', [b'http://up2.example:8080/v1']),
             (r'/both$', [b'http://up1.example/a', b'http://up2.example:8080/b']),
+            (r'/p1$', [b'http://same.example:9001/one']),
+            (r'/p2$', [b'http://same.example:9002/two']),
             r'/lit$',
         ]
 
